@@ -426,12 +426,18 @@ var fieldRe = []string{"version", "hash_slot", "records", "format", "chunks", "s
 	"manifest_bytes", "manifest_sha256", "logical_bytes", "source_cluster_id", "descriptor", "part"}
 
 // perturbText returns a variant of the canonical document and a label.
-func perturbText(r *rand.Rand, b []byte) ([]byte, string) {
+func perturbText(r *rand.Rand, b []byte) ([]byte, string) { return perturbTextKind(r, b, -1) }
+
+// perturbTextKind applies perturbation number kind (kind < 0: drawn from r).
+func perturbTextKind(r *rand.Rand, b []byte, kind int) ([]byte, string) {
 	// perturbations that survive the strict decoder and validation (only the canonical-form
 	// check rejects them) get half of the weight
 	k := r.IntN(22)
 	if r.IntN(2) == 0 {
 		k = []int{0, 0, 1, 1, 2, 6, 7, 8, 8, 15}[r.IntN(10)]
+	}
+	if kind >= 0 {
+		k = kind
 	}
 	switch k {
 	case 0:
